@@ -410,6 +410,11 @@ class SyncInterpreter(BaseInterpreter[TContext, TEvent]):
 
         # 2. Execute each in turn, skipping any invalidated by an earlier one.
         for transition in transitions:
+            # 🏁 An earlier transition of this macrostep may have completed
+            #    the machine (top-level final state) or failed / stopped it:
+            #    a finished machine runs nothing further.
+            if self.status not in ("running", "uninitialized"):
+                break
             if (
                 len(transitions) > 1
                 and transition.source not in self._active_state_nodes
